@@ -750,6 +750,8 @@ pub fn make_est_times<N: AsRef<[Link]>>(
         );
     }
 
+    #[cfg(feature = "verif-hooks")]
+    verif_hooks::observe_pre_pass(&est_times, time_depart);
     update_times_forward(&mut est_times, time_depart);
     update_times_backward(&mut est_times);
 
@@ -761,6 +763,43 @@ pub fn make_est_times<N: AsRef<[Link]>>(
     );
 
     Ok((est_time_net, consist_out.unwrap()))
+}
+
+/// Observation points for the external verification harness (/verif): add-only, no change of
+/// behaviour; compiled only with the cargo feature `verif-hooks` (off by default).
+#[cfg(feature = "verif-hooks")]
+pub mod verif_hooks {
+    use super::*;
+    use std::cell::RefCell;
+
+    type PrePassObserver = Box<dyn FnMut(&[EstTime], si::Time)>;
+    thread_local! {
+        static PRE_PASS: RefCell<Option<PrePassObserver>> = const { RefCell::new(None) };
+    }
+
+    /// Install (or remove) a callback that receives the node vector and the departure time just
+    /// before `make_est_times` runs `update_times_forward` (after its linking assertions).
+    pub fn set_pre_pass_observer(f: Option<PrePassObserver>) {
+        PRE_PASS.with(|c| *c.borrow_mut() = f);
+    }
+
+    pub(super) fn observe_pre_pass(est_times: &[EstTime], time_depart: si::Time) {
+        PRE_PASS.with(|c| {
+            if let Some(f) = c.borrow_mut().as_mut() {
+                f(est_times, time_depart)
+            }
+        });
+    }
+
+    /// The private forward pass, callable on a node vector of the harness's choosing.
+    pub fn verif_update_times_forward(est_times: &mut [EstTime], time_depart: si::Time) {
+        update_times_forward(est_times, time_depart)
+    }
+
+    /// The private backward pass.
+    pub fn verif_update_times_backward(est_times: &mut [EstTime]) {
+        update_times_backward(est_times)
+    }
 }
 
 #[cfg(feature = "pyo3")]
